@@ -3,6 +3,7 @@ import OxiaVerif.Model.Hex
 import OxiaVerif.Facts
 import OxiaVerif.Props.C11Defs
 import OxiaVerif.Model.SKV
+import OxiaVerif.Model.Wal
 
 /-! Line-protocol dispatch: one operation line in, one output line out. -/
 namespace Oxia.Driver
@@ -10,6 +11,9 @@ open Oxia.Key
 
 structure State where
   kv : SKV.Map Unit := []
+  walCfg : Wal.Cfg := { segmentSize := 1024, headerSize := Facts.codecV2HeaderSize, truncFix := Facts.walTruncateUpdatesOffsetsOnAllPaths }
+  walRetention : Int := 0
+  wal : Wal.SW := Wal.SW.init
 
 def State.init : State := {}
 
@@ -105,6 +109,54 @@ def stepKv (st : State) (toks : List String) : State × String :=
   | ["kv.getall"] => (st, "missing=0 first=-")
   | _ => (st, "bad-op")
 
+def showEntry (e : Wal.Entry) : String :=
+  s!"{e.offset}.{e.term}.{e.ts}.{e.id}.{e.size}"
+
+def showEntries : Except Wal.Err (List Wal.Entry) → String
+  | .error e => e.str
+  | .ok l => "n=" ++ toString l.length ++ " " ++ String.intercalate "," (l.map showEntry)
+
+def stepWal (st : State) (toks : List String) : State × String :=
+  match toks with
+  | ["wal.cfg", seg, ret] =>
+    match seg.toNat?, ret.toInt? with
+    | some seg, some ret => ({ st with walCfg := { st.walCfg with segmentSize := seg }, walRetention := ret, wal := Wal.SW.init }, "ok")
+    | _, _ => (st, "bad-op")
+  | [op, off, term, ts, size, id] =>
+    if op == "wal.append" || op == "wal.appendsync" then
+      match off.toInt?, term.toInt?, ts.toInt?, size.toNat?, id.toNat? with
+      | some off, some term, some ts, some size, some id =>
+        match st.wal.appendAsync st.walCfg { offset := off, term := term, ts := ts, size := size, id := id } with
+        | .ok w => ({ st with wal := if op == "wal.appendsync" then w.sync else w }, "ok")
+        | .error e => (st, e.str)
+      | _, _, _, _, _ => (st, "bad-op")
+    else (st, "bad-op")
+  | ["wal.sync"] => ({ st with wal := st.wal.sync }, "ok")
+  | ["wal.clear"] => ({ st with wal := st.wal.clear }, "ok")
+  | ["wal.reopen"] => ({ st with wal := st.wal.reopen }, "ok")
+  | ["wal.trunc", o] =>
+    match o.toInt? with
+    | some o =>
+      match st.wal.truncate st.walCfg o with
+      | .ok (w, r) => ({ st with wal := w }, toString r)
+      | .error e => (st, e.str)
+    | none => (st, "bad-op")
+  | ["wal.trim", now, commit] =>
+    match now.toInt?, commit.toInt? with
+    | some now, some commit =>
+      match st.wal.doTrim now st.walRetention commit with
+      | .ok w => ({ st with wal := w }, "ok")
+      | .error e => (st, e.str)
+    | _, _ => (st, "bad-op")
+  | ["wal.first"] => (st, toString st.wal.first)
+  | ["wal.last"] => (st, toString st.wal.synced)
+  | ["wal.readfwd", a] =>
+    match a.toInt? with
+    | some a => (st, showEntries (st.wal.readFwd a))
+    | none => (st, "bad-op")
+  | ["wal.readrev"] => (st, showEntries st.wal.readRev)
+  | _ => (st, "bad-op")
+
 def step (st : State) (line : String) : State × String :=
   let toks := (line.splitOn " ").filter (· ≠ "")
   match toks with
@@ -113,6 +165,7 @@ def step (st : State) (line : String) : State × String :=
   | t :: _ =>
     if t.startsWith "key." then stepKey st toks
     else if t.startsWith "kv." then stepKv st toks
+    else if t.startsWith "wal." then stepWal st toks
     else (st, "bad-op")
 
 end Oxia.Driver
